@@ -2,7 +2,7 @@
 FatTree.tla, Dragonfly.tla, Star.tla (+ Hier.tla for the machine).
 
 Shapes: torus (all ordered shapes <= 5 dimensions / 64 nodes in the thorough tier, a seeded sample in the quick tier),
-fat-trees (<= 3 levels), dragonflies (<= 3x3x3x3 with at least as many routers per group as groups), flat <cluster>s
+fat-trees (<= 3 levels, <= 64 leaves), dragonflies (<= 3x3x3x3 with at least as many routers per group as groups), flat <cluster>s
 loaded from XML (with/without backbone, loopback, limiter; split-duplex / shared links) and Star zones built through the
 C++ API; with/without loopback and limiter links, split-duplex or shared links; all node pairs:
   M  HierMC: every behaviour reaches the destination with the closed-form hop count (torus: sum of min(|d|, n - |d|);
@@ -29,7 +29,7 @@ def run(ctx):
     tshapes = R.torus_shapes()
     if quick:
         core = [[2], [3], [4], [5], [6], [7], [2, 2], [3, 3], [2, 3, 2], [2, 2, 2, 2, 2]]
-        big = [s for s in tshapes if 30 < __import__("math").prod(s) <= 64]
+        big = [s for s in tshapes if 30 < __import__("math").prod(s) <= 49]
         tshapes = core + rng.sample([s for s in tshapes if s not in core and __import__("math").prod(s) <= 30], 6) + rng.sample(big, 1)
     for i, dims in enumerate(tshapes):
         p = R.Plat("torus-" + "x".join(map(str, dims)))
@@ -39,6 +39,8 @@ def run(ctx):
     fshapes = R.fattree_shapes()
     fcore = [dict(lv=1, down=[2], up=[1], cnt=[1]), dict(lv=2, down=[4, 4], up=[1, 2], cnt=[1, 2]),
              dict(lv=3, down=[2, 2, 2], up=[2, 2, 2], cnt=[1, 1, 2])]
+    if quick:
+        fshapes = [sh for sh in fshapes if __import__("math").prod(sh["down"]) <= 27]
     for sh in fcore + rng.sample(fshapes, 5 if quick else 250):
         p = R.Plat("fattree-%d-%s-%s-%s" % (sh["lv"], sh["down"], sh["up"], sh["cnt"]))
         p.cluster("F", "fattree", lim=rng.choice([0, 1, 2]), **sh, **flags())
@@ -46,7 +48,8 @@ def run(ctx):
         plats.append(p)
     dshapes = R.dragonfly_shapes()
     if quick:
-        dshapes = [dict(g=2, c=2, b=2, n=2), dict(g=3, c=2, b=3, n=1)] + rng.sample(dshapes, 5)
+        dshapes = [dict(g=2, c=2, b=2, n=2), dict(g=3, c=2, b=3, n=1)] + rng.sample(
+            [sh for sh in dshapes if sh["g"] * sh["c"] * sh["b"] * sh["n"] <= 36], 5)
     for sh in dshapes:
         p = R.Plat("dragonfly-%(g)dx%(c)dx%(b)dx%(n)d" % sh)
         p.cluster("D", "dragonfly", lim=rng.choice([0, 1, 2]), gl=rng.randint(1, 2), cl=rng.randint(1, 2),
